@@ -13,11 +13,64 @@ from .. import common, findings, outcheck, outfamily, pipeline
 from .. import ilfront as IL
 
 
+REJECTED = ["{ RdV = siV + nofn(RsV); }", "{ RdV = uiV; while (RsV) { RdV = 1; } }", "{ int32_t q = clz32(RsV) + nofn(1); }", "{ RdV = ; }", "{ RdV = RsV++ + frob(RtV); }",
+            "{ ReV = (RsV > 0) ? ({ RxV = 1; RxV; }) : nofn(2); }", "{ mem_store_u8(RsV, siV); goto out; }"]
+
+
+def history_outputs(run, S, tier):
+    """one long-lived compiler per child: accepted programs compiled after rejected ones; every output through the structural checker"""
+    import contextlib
+    import io
+    import random
+
+    from .. import gen, harness
+
+    comps = S.comps
+
+    def child(seed):
+        rng = random.Random(seed)
+        g = gen.G(rng, avoid=("const_cond",))
+        out = []
+        c = comps["rs"]
+        for i in range(30):
+            if rng.random() < 0.4:
+                t = rng.choice(REJECTED)
+                kind = "rejected"
+            else:
+                t, _ = g.program(depth=rng.choice([1, 2]), nstmts=(1, 3))
+                kind = "program"
+            try:
+                with contextlib.redirect_stdout(io.StringIO()):
+                    z = c.compile_c_stmt(t)
+            except BaseException:  # noqa
+                out.append((kind, t, None))
+                continue
+            o = outcheck.check_output(t, z, S.base_subs)
+            out.append((kind, t, ([o["syntax"]] if o["syntax"] else []) + o["wellformed"] + o["ownership"]))
+        return out
+
+    n = 0
+    res = harness.pmap(child, [f"{run.seed}:c11hist:{k}" for k in range(8 if tier == "quick" else 48)])
+    for r in res:
+        if not isinstance(r, list):
+            run.note_inconclusive(f"history child failed: {str(r)[:160]}")
+            continue
+        prev = []
+        for kind, t, probs in r:
+            if probs is not None:
+                n += 1
+                if probs:
+                    run.violation(f"output compiled after a history of {len(prev)} compiles (last: {prev[-1][:60] if prev else '-'}) is not a well-formed body: {probs[0]} :: `{t[:100]}`",
+                                  {"kind": "history_output", "text": t, "problems": probs, "history": prev[-6:]}, key="history_output:" + re.sub(r"\w+_\d+", "N", probs[0])[:40])
+            prev.append(t)
+    return n
+
+
 def main(tier):
     run = common.Run("C11", "translation_validation", tier)
     layouts = ("rs", "ec")
     S = pipeline.Session(layouts=layouts)
-    outs = outfamily.collect(run, S, tier, "wf", layouts=layouts, corpus_n=70, gen_scale=0.45 if tier == "quick" else 1.0)
+    outs = outfamily.collect(run, S, tier, "wf", layouts=layouts, corpus_n=60, gen_scale=0.3 if tier == "quick" else 1.0)
     res = outfamily.run_checks(S, outs.items)
     bad = 0
     stmts = 0
@@ -92,6 +145,23 @@ def main(tier):
                 run.violation(f"{nm}: getter name/declaration malformed: {g['name'][i]!r} / {g['fcn_decl'][i]!r}", {"kind": "record", "insn": nm}, key="getter_form")
             if r["layout"] == "rs":
                 getters[g["name"][i]].add(nm)
+    # getter names for ALL bundled instruction names through the real naming functions (cheap: no compile)
+    from rzilcompiler.Compiler import RZILInstruction
+
+    ext = S.comps["rs"].ext
+    for nm, parts in S.behaviors.items():
+        try:
+            insn = ext.transform_insn_name(nm)
+        except NotImplementedError:
+            continue
+        for i in range(len(parts)):
+            g = RZILInstruction.gen_hex_il_op_getter_name(insn, i if len(parts) > 1 else -1)
+            getters[g].add(nm)
+            d = RZILInstruction.gen_hex_il_op_getter_name(insn, i if len(parts) > 1 else -1, fcn_decl=True)
+            if not re.fullmatch(r"[A-Za-z_]\w*", g) or f"*{g}(" not in d:
+                run.violation(f"{nm}: getter name/declaration malformed: {g!r} / {d!r}", {"kind": "record", "insn": nm}, key="getter_form")
+    # history workload: outputs of a long-lived compiler (rejected inputs in between) must be well-formed too
+    hist_checked = history_outputs(run, S, tier)
     for gname, owners in getters.items():
         if len(owners) > 1:
             run.violation(f"getter name {gname} is produced by several instructions: {sorted(owners)}", {"kind": "record", "getter": gname, "insns": sorted(owners)}, key="getter_unique:" + gname)
@@ -101,7 +171,7 @@ def main(tier):
         "programs": len(texts), "disagreements_checked": bad + clang_bad, "samples": samples or [{"note": "none"}],
         "evaluations": len(outs.items), "distinct_nontrivial": len(texts),
         "statements_checked": stmts, "clang_batches": clang_batches, "clang_bodies": len(bodies), "clang_subroutine_definitions": len(subdefs),
-        "instruction_records_checked": recs, "getter_names": len(getters), "layouts": list(layouts),
+        "instruction_records_checked": recs, "getter_names": len(getters), "layouts": list(layouts), "history_outputs_checked": hist_checked,
         "texts_by_kind": dict(collections.Counter(it["kind"] for it in outs.items)), "compiles": outs.compiled, "rejected": dict(outs.rejected),
     }, hard_inconclusive=None if stmts > 0 and clang_batches > 0 else "nothing checked")
 
